@@ -267,6 +267,61 @@ Proof.
   apply in_combine_r in H. exists q. cbn. auto.
 Qed.
 
+(* ---- the frame with positions: forgetting the positions gives the frame sorted without them *)
+Lemma map_fst_insert {A B} (k : A -> Z) (x : A * B) l :
+  map fst (insert_by (fun y : A * B => k (fst y)) x l) = insert_by k (fst x) (map fst l).
+Proof.
+  induction l as [|y l IH]; [reflexivity|]. cbn [insert_by map].
+  destruct (k (fst x) <=? k (fst y)); [reflexivity|]. cbn [map]. rewrite IH. reflexivity.
+Qed.
+
+Lemma map_fst_isort {A B} (k : A -> Z) (l : list (A * B)) :
+  map fst (isort_by (fun y : A * B => k (fst y)) l) = isort_by k (map fst l).
+Proof.
+  induction l as [|x l IH]; [reflexivity|]. cbn [isort_by fold_right map].
+  fold (isort_by (fun y : A * B => k (fst y)) l). fold (isort_by k (map fst l)).
+  rewrite map_fst_insert, IH. reflexivity.
+Qed.
+
+Lemma map_fst_filter {A B} (p : A -> bool) (l : list (A * B)) :
+  map fst (filter (fun y => p (fst y)) l) = filter p (map fst l).
+Proof. induction l as [|x l IH]; [reflexivity|]. cbn [filter map]. destruct (p (fst x)); cbn [map]; rewrite IH; reflexivity. Qed.
+
+Lemma gc_map_fst {A B} (k k2 : A -> Z) (X : list (A * B)) :
+  map fst (group_concat (fun x : A * B => k (fst x)) (isort_by (fun x : A * B => k2 (fst x))) X)
+  = group_concat k (isort_by k2) (map fst X).
+Proof.
+  unfold group_concat. rewrite !flat_map_concat_map, concat_map, map_map.
+  rewrite <- (map_map fst k X). f_equal. apply map_ext. intros key.
+  rewrite map_fst_isort. f_equal. apply (map_fst_filter (fun a => k a =? key)).
+Qed.
+
+Lemma group_concat_perm {A} (key : A -> Z) (f : list A -> list A) l :
+  (forall g, Permutation (f g) g) -> Permutation (group_concat key f l) l.
+Proof.
+  intros H. unfold group_concat. rewrite flat_map_concat_map.
+  eapply Permutation_trans; [|apply (groups_perm key l)]. unfold groups_of.
+  rewrite <- (map_map (fun k => filter (fun x => key x =? k) l) f). apply concat_map_perm. exact H.
+Qed.
+
+Lemma map_fst_combine {A B} (l : list A) : forall (v : list B), length v = length l -> map fst (combine l v) = l.
+Proof. induction l as [|a l IH]; intros [|b v] H; cbn in *; try reflexivity; try discriminate. rewrite IH by lia. reflexivity. Qed.
+
+Lemma zseq_length k n : length (zseq k n) = n.
+Proof. revert k. induction n as [|n IH]; intros k; [reflexivity|]. cbn. rewrite IH. reflexivity. Qed.
+
+Lemma tad_sorted_pos_fst fr dids : map fst (tad_sorted_pos fr dids) = tad_sorted fr dids.
+Proof.
+  unfold tad_sorted_pos, tad_sorted.
+  etransitivity; [apply (gc_map_fst t_id t_did (combine (combine fr dids) (zseq 0 (length (combine fr dids)))))|].
+  rewrite map_fst_combine by apply zseq_length. reflexivity.
+Qed.
+
+Lemma combine_scan_map {A A' B} (g : A -> A') (f : list A' -> A' -> B) l : forall rp,
+  combine l (scan f (map g rp) (map g l)) = scan (fun rp x => (x, f (map g rp) (g x))) rp l.
+Proof. induction l as [|x l IH]; intros rp; cbn [map scan combine]; [reflexivity|]. f_equal. apply (IH (x :: rp)). Qed.
+
+(* every entry of the result comes from an entry of the sorted frame with the same amount and value *)
 Lemma in_tad_core fr dids p : In p (tad_core fr dids) ->
   exists pre x post, tad_sorted fr dids = pre ++ x :: post
     /\ snd p = t_time x - t_time (oldest trow same_period (rev pre) x)
@@ -274,9 +329,13 @@ Lemma in_tad_core fr dids p : In p (tad_core fr dids) ->
 Proof.
   unfold tad_core. intros H. apply in_relabel in H. destruct H as [q [Hq [Es Ea]]].
   apply in_map_iff in Hq. destruct Hq as [e [<- He]]. apply filter_In in He. destruct He as [He _].
-  rewrite tad_values_closed, combine_scan in He.
+  apply in_isort in He.
+  rewrite tad_values_closed in He. change (@nil trow) with (map (@fst trow Z) []) in He.
+  rewrite combine_scan_map in He.
   destruct (in_scan _ _ _ _ He) as [pre [x [post [E ->]]]]. rewrite app_nil_r in *.
-  exists pre, x, post. cbn [fst snd] in *. auto.
+  exists (map fst pre), (fst x), (map fst post). cbn [fst snd] in *.
+  split; [rewrite <- tad_sorted_pos_fst, E, map_app; reflexivity|].
+  rewrite <- map_rev. auto.
 Qed.
 
 Lemma tad_zero_core s fr p :
@@ -384,57 +443,140 @@ Proof.
   rewrite IH by lia. reflexivity.
 Qed.
 
+(* "group by k1 in ascending order, stable sort by k2" is the identity on a frame whose k1 never
+   decreases and whose k2 never decreases within a k1 group *)
+Lemma gc_identity {A} (k1 k2 : A -> Z) (F : list A) :
+  ssorted (map k1 F) ->
+  (forall pre x post, F = pre ++ x :: post -> forall y, In y pre -> k1 y = k1 x -> k2 y <= k2 x) ->
+  group_concat k1 (isort_by k2) F = F.
+Proof.
+  intros Hs Hd. unfold group_concat. rewrite flat_map_concat_map.
+  rewrite (map_ext_in _ (fun k => filter (fun x => k1 x =? k) F)).
+  - apply blocks_identity; [apply asc_skeys | exact Hs | intros x Hx; apply In_skeys; apply in_map; exact Hx].
+  - intros k _. apply isort_sorted_id. apply pairwise_ssorted.
+    intros pre x post E Hx y Hy Hyk. apply Z.eqb_eq in Hx, Hyk. apply (Hd pre x post E y Hy). congruence.
+Qed.
+
+Lemma sorted_within_pairs fr dids : g_sorted_within t_id t_did (combine fr dids) = true ->
+  forall pre x post, combine fr dids = pre ++ x :: post -> forall y, In y pre -> t_id y = t_id x -> t_did y <= t_did x.
+Proof.
+  intros Hd pre x post E y Hy Hi. unfold g_sorted_within in Hd.
+  assert (Q := forall_ctx_spec _ _ Hd _ _ _ E). cbn beta in Q. rewrite forallb_forall in Q.
+  specialize (Q y). rewrite <- in_rev in Q. specialize (Q Hy).
+  rewrite Hi, Z.eqb_refl in Q. cbn [negb orb] in Q. apply Z.leb_le. exact Q.
+Qed.
+
 Lemma tad_sorted_identity fr dids : length dids = length fr ->
   sortedz (map (fun e : row * bool => r_id (fst e)) fr) = true ->
   g_sorted_within t_id t_did (combine fr dids) = true ->
   tad_sorted fr dids = combine fr dids.
 Proof.
-  intros Hl Hids Hd. unfold tad_sorted, group_concat. set (F := combine fr dids) in *.
-  rewrite flat_map_concat_map.
-  rewrite (map_ext_in _ (fun k => filter (fun x => t_id x =? k) F)).
-  - apply blocks_identity; [apply asc_skeys | | intros x Hx; apply In_skeys; apply in_map; exact Hx].
-    unfold F. rewrite (map_tid_combine fr dids Hl). apply sortedz_ssorted. exact Hids.
-  - intros k _. apply isort_sorted_id. apply pairwise_ssorted.
-    intros pre x post E Hx y Hy Hyk. unfold g_sorted_within in Hd.
-    assert (Q := forall_ctx_spec _ _ Hd _ _ _ E). cbn beta in Q. rewrite forallb_forall in Q.
-    specialize (Q y). rewrite <- in_rev in Q. specialize (Q Hy).
-    apply Z.eqb_eq in Hx, Hyk. rewrite Hx, Hyk, Z.eqb_refl in Q. cbn [negb orb] in Q. apply Z.leb_le. exact Q.
+  intros Hl Hids Hd. unfold tad_sorted. apply gc_identity.
+  - rewrite (map_tid_combine fr dids Hl). apply sortedz_ssorted. exact Hids.
+  - apply sorted_within_pairs. exact Hd.
 Qed.
 
-Lemma tad_core_rows fr dids : length dids = length fr ->
+Lemma tad_sorted_pos_identity fr dids : length dids = length fr ->
   sortedz (map (fun e : row * bool => r_id (fst e)) fr) = true ->
   g_sorted_within t_id t_did (combine fr dids) = true ->
+  tad_sorted_pos fr dids = combine (combine fr dids) (zseq 0 (length (combine fr dids))).
+Proof.
+  intros Hl Hids Hd. unfold tad_sorted_pos. set (F := combine fr dids). apply gc_identity.
+  - assert (E0 : map (fun x : prow => t_id (fst x)) (combine F (zseq 0 (length F))) = map t_id F).
+    { rewrite <- (map_fst_combine F (zseq 0 (length F))) at 3 by apply zseq_length. rewrite map_map. reflexivity. }
+    rewrite E0. unfold F. rewrite (map_tid_combine fr dids Hl). apply sortedz_ssorted. exact Hids.
+  - intros pre x post E y Hy Hi. apply (f_equal (map fst)) in E.
+    rewrite map_fst_combine, map_app in E by apply zseq_length. cbn [map] in E.
+    apply (sorted_within_pairs fr dids Hd _ _ _ E (fst y)); [apply in_map; exact Hy | exact Hi].
+Qed.
+
+(* ---- sorting back by position *)
+Lemma zseq_asc k n : asc (zseq k n).
+Proof.
+  revert k. induction n as [|n IH]; intros k; [exact I|]. cbn [zseq asc]. split; [|apply IH].
+  intros y Hy. clear IH. revert k Hy. induction n as [|n IHn]; intros k Hy; [destruct Hy|].
+  cbn [zseq] in Hy. destruct Hy as [<-|Hy]; [lia|]. specialize (IHn (k + 1) Hy). lia.
+Qed.
+
+Lemma asc_ssorted l : asc l -> ssorted l.
+Proof.
+  induction l as [|x l IH]; intros H; [exact I|]. destruct H as [H1 H2]. split; [|auto].
+  intros y Hy. specialize (H1 y Hy). lia.
+Qed.
+
+(* a sorted list that is a rearrangement of a list with strictly ascending keys is that list *)
+Lemma sorted_perm_unique {A} (key : A -> Z) (b : list A) : asc (map key b) ->
+  forall a, ssorted (map key a) -> Permutation a b -> a = b.
+Proof.
+  induction b as [|x b IH]; intros Hb a Ha Hp.
+  - apply Permutation_sym, Permutation_nil in Hp. exact Hp.
+  - destruct a as [|y a]; [apply Permutation_nil in Hp; discriminate|].
+    destruct Hb as [Hb1 Hb2]. destruct Ha as [Ha1 Ha2].
+    assert (y = x).
+    { assert (Hy : In y (x :: b)) by (apply (Permutation_in _ Hp); left; reflexivity).
+      assert (Hx : In x (y :: a)) by (apply (Permutation_in _ (Permutation_sym Hp)); left; reflexivity).
+      destruct Hy as [E|Hy]; [symmetry; exact E|]. destruct Hx as [E|Hx]; [exact E|]. exfalso.
+      specialize (Hb1 (key y) (in_map key _ _ Hy)). specialize (Ha1 (key x) (in_map key _ _ Hx)). lia. }
+    subst y. f_equal. apply IH; auto. apply (Permutation_cons_inv Hp).
+Qed.
+
+Lemma map_snd_combine_len {A B} (l : list A) : forall (v : list B), length v = length l -> map snd (combine l v) = v.
+Proof. induction l as [|a l IH]; intros [|b v] H; cbn in *; try reflexivity; try discriminate. rewrite IH by lia. reflexivity. Qed.
+
+Lemma tad_values_length S : length (tad_values S) = length S.
+Proof. unfold tad_values, group_cumsum. rewrite scan_length, combine_length. unfold group_diff. rewrite scan_length. apply Nat.min_id. Qed.
+
+(* sorted back by _POS, the (record, DOSEID, position) parts are the working frame again *)
+Lemma tad_back_fst fr dids :
+  map fst (isort_by (fun x : prow * Z => p_pos (fst x))
+                    (combine (tad_sorted_pos fr dids) (tad_values (map fst (tad_sorted_pos fr dids)))))
+  = combine (combine fr dids) (zseq 0 (length (combine fr dids))).
+Proof.
+  rewrite (map_fst_isort p_pos).
+  rewrite map_fst_combine by (rewrite tad_values_length, map_length; reflexivity).
+  set (F' := combine (combine fr dids) (zseq 0 (length (combine fr dids)))).
+  apply (sorted_perm_unique p_pos F').
+  - assert (E0 : map p_pos F' = zseq 0 (length (combine fr dids))).
+    { exact (map_snd_combine_len (combine fr dids) (zseq 0 (length (combine fr dids))) (zseq_length _ _)). }
+    rewrite E0. apply zseq_asc.
+  - apply isort_ssorted.
+  - eapply Permutation_trans; [apply isort_perm|]. unfold tad_sorted_pos. fold F'.
+    apply group_concat_perm. intros g. apply isort_perm.
+Qed.
+
+Lemma map_filter_fst {A B C} (g : A -> C) (p : A -> bool) (X : list (A * B)) :
+  map (fun x : A * B => g (fst x)) (filter (fun x : A * B => p (fst x)) X) = map g (filter p (map fst X)).
+Proof. induction X as [|x X IH]; [reflexivity|]. cbn [filter map]. destruct (p (fst x)); cbn [map]; rewrite IH; reflexivity. Qed.
+
+(* the records of the result are the unexpanded records of the working frame, in order — always *)
+Lemma tad_core_rows fr dids : length dids = length fr ->
   map (fun p : row * Z => set_lab (fst p) 0) (tad_core fr dids)
   = map (fun p : row * bool => set_lab (fst p) 0) (filter (fun p => negb (snd p)) fr).
 Proof.
-  intros Hl Hids Hd. unfold tad_core. rewrite (tad_sorted_identity fr dids Hl Hids Hd).
-  rewrite relabel_unlab, map_map. cbn [fst].
-  rewrite (combine_fst_filter_map (fun x : trow => set_lab (fst (fst x)) 0) (fun x : trow => negb (snd (fst x)))).
+  intros Hl. unfold tad_core. rewrite relabel_unlab, map_map. cbn [fst].
+  rewrite (map_filter_fst (fun x : prow => set_lab (fst (fst (fst x))) 0) (fun x : prow => negb (snd (fst (fst x))))).
+  rewrite tad_back_fst.
+  etransitivity.
+  - apply (combine_fst_filter_map (fun x : trow => set_lab (fst (fst x)) 0) (fun x : trow => negb (snd (fst x)))
+             (combine fr dids) (zseq 0 (length (combine fr dids))) (zseq_length _ _)).
   - apply (combine_fst_filter_map (fun e : row * bool => set_lab (fst e) 0) (fun e : row * bool => negb (snd e)) fr dids Hl).
-  - unfold tad_values, group_cumsum. rewrite scan_length, combine_length. unfold group_diff. rewrite scan_length. lia.
 Qed.
 
-Lemma tad_frame_kept_lemma d : guard_tad_frame d = true ->
-  exists fr out, tad_frame d = Ok fr /\ tad_impl d = Ok out
+Lemma tad_frame_kept_lemma d out : tad_impl d = Ok out ->
+  exists fr, tad_frame d = Ok fr
     /\ map (fun p : row * Z => set_lab (fst p) 0) out
        = map (fun p : row * bool => set_lab (fst p) 0) (filter (fun p => negb (snd p)) fr).
 Proof.
-  unfold guard_tad_frame, tad_impl. destruct (tad_frame d) as [fr|e] eqn:Ef; [|discriminate].
-  rewrite (tad_frame_ok_ii d fr Ef).
-  intros G. apply andb_prop in G. destruct G as [Gi Gd].
-  destruct (doseid_impl (with_rows d (map fst fr) true)) as [dids|e] eqn:E; [|discriminate].
-  exists fr, (tad_core fr dids). split; [reflexivity|]. split; [reflexivity|].
-  apply tad_core_rows; auto. rewrite (doseid_impl_core _ _ E), doseid_core_length. unfold with_rows. cbn [ds_rows].
-  apply map_length.
+  intros H. destruct (tad_impl_inv d out H) as [fr [Ef ->]]. exists fr. split; [exact Ef|].
+  apply tad_core_rows. rewrite doseid_core_length, map_length. reflexivity.
 Qed.
 
 (* the property as stated: the records of the input, in their order, with every field as it was *)
-Lemma add_column_frame_lemma d : guard_tad_frame d = true ->
+Lemma add_column_frame_lemma d out : tad_impl d = Ok out ->
   has_addl (ds_sch d) = false \/ guard_expand_order d = true ->
-  exists out, tad_impl d = Ok out
-    /\ map (fun p : row * Z => set_lab (fst p) 0) out = map (fun r => set_lab r 0) (ds_rows d).
+  map (fun p : row * Z => set_lab (fst p) 0) out = map (fun r => set_lab r 0) (ds_rows d).
 Proof.
-  intros G H. destruct (tad_frame_kept_lemma d G) as [fr [out [Ef [Eo Er]]]]. exists out. split; [exact Eo|].
+  intros Ho H. destruct (tad_frame_kept_lemma d out Ho) as [fr [Ef Er]].
   rewrite Er. unfold tad_frame in Ef. destruct (has_addl (ds_sch d)) eqn:Ha.
   - destruct H as [H|H]; [discriminate|]. destruct (negb (has_ii (ds_sch d))); [discriminate|].
     apply (expand_keeps_originals_lemma d fr H Ef).
